@@ -202,6 +202,25 @@ func sentenceCases(m *ref.Model, l int, base []string, heavy bool, emit func(SCa
 			emit(SCase{S: join(typed), L: l, Tokens: toks, Canon: false, Equiv: true, Class: "spacing-accent"})
 		}
 	}
+	// ill-formed UTF-8 in an otherwise valid sentence (a lone 0xFF or continuation byte, truncated
+	// two- and three-byte sequences, an overlong form, an encoded surrogate, a value above U+10FFFF):
+	// the bytes belong to the token they touch, which is then not a list word - code that drops or
+	// replaces them (ToValidUTF8, a []rune round trip) would accept or misreport the sentence
+	for _, bad := range []string{"\xff", "\x80", "\xc3", "\xe3\x81", "\xc0\xaf", "\xed\xa0\x80", "\xf4\x90\x80\x80"} {
+		for _, p := range []int{0, n / 2, n - 1} {
+			w := base[p]
+			_, sz := utf8.DecodeRuneInString(w)
+			for _, d := range []string{bad + w, w + bad, w[:sz] + bad + w[sz:]} {
+				t := append([]string(nil), base...)
+				t[p] = d
+				emit(SCase{S: join(t), L: l, Tokens: t, Canon: false, Class: "ill-formed-utf8"})
+			}
+		}
+		// as a token of its own in place of a word, and glued to the separators at both ends
+		t := append([]string(nil), base...)
+		t[n/2] = bad
+		emit(SCase{S: join(t), L: l, Tokens: t, Canon: false, Class: "ill-formed-utf8"})
+	}
 	// empty token in place of a word (the separators stay): n tokens after a split on
 	// U+0020 but only n-1 words
 	for p := 0; p < n; p++ {
